@@ -93,6 +93,7 @@ var states = []stateKind{
 	{name: "running", program: progBusy, mode: "running"},
 	{name: "suspended-top-breakpoint", program: progTop, breakAt: 3, mode: "suspended"},
 	{name: "suspended-top-breakonstart", program: progTop, onStart: true, mode: "suspended"},
+	{name: "suspended-first-node-single-statement", program: "a := 1\n", onStart: true, mode: "suspended"},
 	{name: "suspended-top-lastline", program: progTop, breakAt: 6, mode: "suspended"},
 	{name: "suspended-depth1", program: fmt.Sprintf(progNested, "g3"), breakAt: 2, mode: "suspended"},
 	{name: "suspended-depth2", program: fmt.Sprintf(progNested, "g2"), breakAt: 2, mode: "suspended"},
